@@ -14,11 +14,11 @@ def shotPoisson [LT K] [DecidableLT K] [Zero K] (lamMax : K) (draw : Int → Nat
   if (List.range n).any (fun i => decide (img i < 0) || decide (lamMax < img i)) then none
   else some fun i => draw seed i (img i)
 
-/-- `shot_noise(img, 'gaussian', seed)`: explicit negative guard, then `asarray(normal(loc=img, scale=sqrt(img)), dtype=int)`
+/-- `shot_noise(img, 'gaussian', seed)`: explicit negative and largest-representable-count guards, then `asarray(normal(loc=img, scale=sqrt(img)), dtype=int)`
 (truncation toward zero), then `np.floor` (identity on integers). `z seed i` is the standard-normal draw of pixel `i`. -/
-def shotGaussian [LT K] [DecidableLT K] [Zero K] [Add K] [Mul K] (sqrt : K → K) (trunc : K → Int) (z : Int → Nat → K)
+def shotGaussian [LT K] [DecidableLT K] [Zero K] [Add K] [Mul K] (lamMax : K) (sqrt : K → K) (trunc : K → Int) (z : Int → Nat → K)
     (seed : Int) (n : Nat) (img : Nat → K) : Option (Nat → Int) :=
-  if (List.range n).any (fun i => decide (img i < 0)) then none
+  if (List.range n).any (fun i => decide (img i < 0) || decide (lamMax < img i)) then none
   else some fun i => trunc (img i + sqrt (img i) * z seed i)
 
 /-- `read_noise(img, electrons, seed)`: `img + normal(0, electrons, img.shape)` -/
@@ -30,6 +30,28 @@ def readNoise [Add K] [Mul K] (z : Int → Nat → K) (electrons : K) (seed : In
 def darkCurrent [LT K] [DecidableLT K] [Zero K] [One K] [Mul K] (floor : K → Int) (fpn : Int → Nat → K) (rate fpnFactor : K)
     (seed : Int) (i : Nat) : Int :=
   if 0 < fpnFactor then floor (rate * 1 * fpn seed i) else floor (rate * 1 * 1)
+
+/-- Rule-07 dark-current rate in electrons per pixel per second (`rule07_dark_current`, constants of Tennant et al. 2008); `exp`/`pow` are parameters -/
+def rule07Rate [LE K] [DecidableLE K] [Add K] [Sub K] [Mul K] [Div K] [One K] (exp : K → K) (pow : K → K → K) (ofScientific : Nat → Bool → Nat → K)
+    (temperature cutoff pixelscale : K) : K :=
+  let J0 := ofScientific 836700001853855 true 11
+  let C := (ofScientific 0 false 0) - ofScientific 116239134096245 true 14
+  let k := ofScientific 13802 true 27
+  let q := ofScientific 16021 true 23
+  let lamThr := ofScientific 463513642316149 true 14
+  let lamScale := ofScientific 200847413564122 true 15
+  let P := ofScientific 544071281108481 true 15
+  let lamCut := cutoff * ofScientific 1 false 6
+  let lamE := if lamThr ≤ lamCut then lamCut else lamCut / (1 - pow (lamScale / lamCut - lamScale / lamThr) P)
+  let J := J0 * exp (C * (ofScientific 124 true 2 * q / (k * lamE * temperature)))
+  let pxArea := (pixelscale * ofScientific 1 false 2) * (pixelscale * ofScientific 1 false 2)
+  1 / q * pxArea * J
+
+/-- `rule07_dark_current(temperature, cutoff, pixelscale, shape, fpn_factor, seed)`:
+`dark_current(rate, shape, fpn_factor, seed)` — the rate from Rule 07, **the caller's seed handed on unchanged** -/
+def rule07Dark [LT K] [DecidableLT K] [Zero K] [One K] [Mul K] (floor : K → Int) (fpn : Int → Nat → K) (rate : K) (fpnFactor : K)
+    (seed : Int) (i : Nat) : Int :=
+  darkCurrent floor fpn rate fpnFactor seed i
 
 /-- number of non-zero entries (`np.count_nonzero`); `nz y` decides `y ≠ 0` -/
 def countNonzero (nz : K → Bool) (n : Nat) (f : Nat → K) : Nat := ((List.range n).filter fun i => nz (f i)).length
